@@ -31,9 +31,14 @@ META = {
     "note": "Trusted: Lean kernel + propext/Classical.choice/Quot.sound; the harness and the Python structural parser; the C compiler. "
             "The index hash (SHA-256 of the size pairs in C) is modelled as comparing the lists (collision-freeness assumed, stated). "
             "Hypotheses of the locality/prefix theorems on the abstract payload decoder: PayloadLocal, PayloadBounded; both are PROVED for the "
-            "concrete raw LZMA1/LZMA2 chain model (Lemmas/LzmaCausal*.lean, XzStd.lean), so the *_std theorems have no hypothesis left. Not theorems: rejection of a flip in a Block Header "
-            "Size byte or the Index Indicator (would need a CRC32 coincidence to be excluded), completeness of the grammar, whole-file form of "
-            "the payload-damage/collision statement (flips in later Streams / Stream Padding under CONCATENATED are covered by header_bitflip_rejected_partial). Multi-byte damage is covered only up to a Check collision. The threaded decoder is "
+            "concrete raw LZMA1/LZMA2 chain model (Lemmas/LzmaCausal*.lean, XzStd.lean), so the *_std theorems have no hypothesis left "
+            "(non-vacuity: tests/files/good-1-check-crc32.xz evaluated in the kernel). Also proved: .lzma and .lz truncation "
+            "(lzma_prefix_free(_model), lzip_prefix_free(_model)), CRC32/CRC64 burst detection up to 32/64 bits (crc32_burst_detected, "
+            "crc64_burst_detected), flips in later Streams / Stream Padding under CONCATENATED (header_bitflip_rejected_partial), and the "
+            "whole-file payload-damage theorem with corrected hypotheses (payload_damage_needs_collision_whole: Stream = whole file, "
+            "supported Check other than None; the earlier statement was false as written). Not theorems: rejection of a flip in a Block "
+            "Header Size byte or the Index Indicator (would need a CRC32 coincidence to be excluded). Multi-byte damage is covered only up "
+            "to a Check collision. The threaded decoder is "
             "covered by the direct oracle only. Known finding: .lz trailing-data rule (findings/C05-lz-trailing-data-rule.json).",
     "technique": "Lean 4 proof over an executable model + differential correspondence + exhaustive single-fault injection",
 }
